@@ -127,7 +127,13 @@ func (or *pgxRepository) SaveObject(ctx context.Context, tx *sql.Tx, object *obj
 		_, err := tx.ExecContext(ctx, insertObjectStmt, object.Id.String(), object.BucketName.String(), object.Key.String(), object.ContentType, object.CacheControl, object.ContentDisposition, object.ContentEncoding, object.ContentLanguage, object.Expires, object.WebsiteRedirectLocation, object.ETag, object.ChecksumCRC32, object.ChecksumCRC32C, object.ChecksumCRC64NVME, object.ChecksumSHA1, object.ChecksumSHA256, object.ChecksumType, object.Size, object.VersionID, object.IsDeleteMarker, object.IsLatest, object.UploadStatus, ptrutils.MapPtr(object.UploadId, mapUploadIdToString), object.OptimisticLockVersion, object.CreatedAt, object.UpdatedAt, object.StorageClass)
 		return err
 	}
-	object.UpdatedAt = time.Now().UTC()
+	// updated_at is the Last-Modified of the version: callers that rewrite the
+	// content pass a fresh entity (zero UpdatedAt) and get the current time;
+	// bookkeeping updates of a loaded row (is_latest flips, tagging, storage
+	// class transitions, optimistic lock bumps) keep the loaded value.
+	if object.UpdatedAt.IsZero() {
+		object.UpdatedAt = time.Now().UTC()
+	}
 	res, err := tx.ExecContext(ctx, updateObjectByIdStmt, object.BucketName.String(), object.Key.String(), object.ContentType, object.CacheControl, object.ContentDisposition, object.ContentEncoding, object.ContentLanguage, object.Expires, object.WebsiteRedirectLocation, object.ETag, object.ChecksumCRC32, object.ChecksumCRC32C, object.ChecksumCRC64NVME, object.ChecksumSHA1, object.ChecksumSHA256, object.ChecksumType, object.Size, object.VersionID, object.IsDeleteMarker, object.IsLatest, object.UploadStatus, ptrutils.MapPtr(object.UploadId, mapUploadIdToString), object.StorageClass, object.UpdatedAt, object.Id.String())
 	if err != nil {
 		return err
@@ -175,7 +181,10 @@ func (or *pgxRepository) UpdateObjectByIdAndOptimisticLockVersion(ctx context.Co
 	mapUploadIdToString := func(uploadId storage.UploadId) string {
 		return uploadId.String()
 	}
-	object.UpdatedAt = time.Now().UTC()
+	// See SaveObject: only an entity without UpdatedAt gets a new Last-Modified.
+	if object.UpdatedAt.IsZero() {
+		object.UpdatedAt = time.Now().UTC()
+	}
 	res, err := tx.ExecContext(ctx, updateObjectByIdAndOptimisticLockVersionStmt, object.BucketName.String(), object.Key.String(), object.ContentType, object.CacheControl, object.ContentDisposition, object.ContentEncoding, object.ContentLanguage, object.Expires, object.WebsiteRedirectLocation, object.ETag, object.ChecksumCRC32, object.ChecksumCRC32C, object.ChecksumCRC64NVME, object.ChecksumSHA1, object.ChecksumSHA256, object.ChecksumType, object.Size, object.VersionID, object.IsDeleteMarker, object.IsLatest, object.UploadStatus, ptrutils.MapPtr(object.UploadId, mapUploadIdToString), object.StorageClass, object.UpdatedAt, object.Id.String(), optimisticLockVersion)
 	if err != nil {
 		return nil, err
